@@ -165,6 +165,28 @@ def run(ctx: Ctx):
             if o[0] != "ok" or not close(h2f(o[1]), Ph[0], 1e-9):
                 ctx.disagree("C05.pexit.history", {"version": v, "model": " ".join(o), "code": float(Ph[0])})
             ctx.traces += 1
+        # ---------------- the stage as a whole: the tauExitProb the stage returns (and stores) is tau_exit_prob of the same events,
+        # over the whole documented angle range [0, 90 deg] (incl. above-table angles at the lowest energies) — in (0, 1]
+        nb_ = 400
+        bs_ = rng.uniform(0.0, np.pi / 2, nb_); ls_ = rng.uniform(gE[0], gE[-1], nb_)
+        bs_[:8] = [0.0, float(gB[0]), float(gB[-1]), float(np.nextafter(gB[-1], 4.0)), np.pi / 2, 0.9, 1.2, 1.5]
+        ls_[:8] = [6.0, 6.0, 12.0, 6.0, 6.0, 6.5, 7.0, 7.25]
+        stored_ = {}
+        try:
+            with np.errstate(all="ignore"):
+                out_ = make_taus(v)(bs_.copy(), ls_.copy(), store=lambda names, cols, stored_=stored_: stored_.update({k_: np.array(c_, copy=True) for k_, c_ in zip(names, cols)}))
+            pe_stage = np.asarray(out_[4], dtype=np.float64)
+            pe_direct = make_taus(v).tau_exit_prob(bs_.copy(), ls_.copy())
+            ctx.case(("stage", v), None, n=nb_); ctx.count("stage_events", nb_)
+            bad = np.nonzero(~((pe_stage == pe_direct) & (pe_stage > 0) & (pe_stage <= 1)))[0]
+            if len(bad) or ("tauExitProb" in stored_ and not np.array_equal(stored_["tauExitProb"], pe_stage)):
+                k_ = int(bad[0]) if len(bad) else 0
+                ctx.violation("Taus.__call__", "stage-exit-probability-differs-from-tau_exit_prob",
+                              "the exit probability returned by the tau stage is not tau_exit_prob of the same event (or not in (0,1])",
+                              {"version": v, "beta_rad": float(bs_[k_]), "beta_deg": float(np.degrees(bs_[k_])), "log_e_nu": float(ls_[k_]),
+                               "stage": float(pe_stage[k_]), "tau_exit_prob": float(pe_direct[k_]), "events_differing": int(len(bad))})
+        except Exception as ex:  # noqa
+            ctx.violation("Taus.__call__", "stage-raises", f"{type(ex).__name__}: {str(ex)[:120]}", {"version": v})
         # ---------------- the documented range [6, 12] itself (nominal numbers, not the file's own axis values): defined, in (0,1]
         nominal = np.arange(6.0, 12.0 + 1e-9, 0.25)
         bn = np.array([0.0, float(gB[0]), 0.3, float(gB[-1]), 1.2])
